@@ -245,8 +245,12 @@ def load_lines(lines: Iterable[str]) -> Tuple[
         # Replace the STV config results with the BLT data where applicable.
         if system.name is None and election_name:
             system.name = election_name
+        evaluator = system.evaluator
+        if isinstance(evaluator, votelib.evaluate.FixedSeatCount):
+            # the seat count of the BLT content replaces a seats= header
+            evaluator = evaluator.evaluator
         system.evaluator = votelib.evaluate.FixedSeatCount(
-            system.evaluator, blt_n_seats
+            evaluator, blt_n_seats
         )
         if not candidates and blt_candidates:
             candidates = blt_candidates
